@@ -109,7 +109,7 @@ def arrangements(run, c):
     shards = [[] for _ in range(k)]
     for i, t in enumerate(pts):
         shards[r.randrange(k)].append((perm[i], t))
-    names = r.sample(["a.txn", "b.txn", "2024/01/x.txn", "2024/y.txn", "z/z/z.txn", "0.txn", "dir.txn/f.txn"], k)
+    names = r.sample(["a.txn", "b.txn", "2024/01/x.txn", "2024/y.txn", "z/z/z.txn", "0.txn", "dir.txn/f.txn", ".archive/old.txn", "2024/.late.txn"], k)
     inputs, order = [], []
     for nm, sh in zip(names, shards):
         if sh:
